@@ -2,13 +2,14 @@
    Model: Model/Struct.v (reports of the store operations; book_apply = Engine.apply_update/_delete_path/
    _add_process_path/_add_step_path) with Model/Steps.v and Model/Sched.v; proofs: Proofs/Struct_proofs.v.
    The scheduler only ever polls the processes of its table (Model/Sched.v iter folds over procs) and creates fronts
-   at the current time; what is proved here is the table part.  The full invariant "tables = hierarchy" and the
+   at the current time; what is proved here is the table part, including the invariant "process table = non-step process
+   nodes of the hierarchy" through delete, generate and move (Proofs/Consistent_proofs.v).  Division, the step tables and the
    continuation of a rebuilt engine are decided by the bookkeeping correspondence and the run-stream oracle of the
    check; known findings K3, K6, K8 are deviations of the current code.
    This file contains only statements closed by `exact`, their assumptions and non-vacuity examples.
    Generated once by tools/genprops.py from the proved lemmas (statements restated verbatim). *)
 From Coq Require Import List NArith ZArith Bool Lia Sorting.Permutation.
-From Viv Require Import Base.Assoc Base.Tree Model.Paths Model.Steps Model.Struct Model.StructC Proofs.Struct_proofs.
+From Viv Require Import Base.Assoc Base.Tree Model.Paths Model.Steps Model.Struct Model.StructC Proofs.Struct_proofs Proofs.Consistent_proofs.
 Import ListNotations.
 
 (* after an update no registered process lies under a path it deleted: nothing deleted (or moved away under its old path) is ever polled again *)
@@ -90,6 +91,161 @@ Theorem C10_history_frame :
 Proof. exact @history_frame. Qed.
 Print Assumptions C10_history_frame.
 
+(* INVARIANT tables = hierarchy, delete step: if the process table lists exactly the non-step process nodes of the hierarchy before a _delete, it does so after the store operation and the engine bookkeeping *)
+Theorem C10_consistent_delete :
+  forall (mk_child : N -> cnode * N) (D : Type) (build : D -> N -> cnode * N)
+           (copy_procs : cnode -> N -> cnode * N) (vr : variant) (t : cnode) 
+           (here : list key) (k : key) (uid : N) (t' : cnode) (rp : reports) 
+           (uid' : N) (b b' : book),
+         cwf t ->
+         consistent_procs t b ->
+         apply_op mk_child D build copy_procs vr t here (OpDelete D k) uid = Ok (t', rp, uid') ->
+         book_apply b rp = Ok b' -> consistent_procs t' b'.
+Proof. exact @consistent_delete. Qed.
+Print Assumptions C10_consistent_delete.
+
+(* ... generate step (new key; whatever the composite lists under steps is a Step) *)
+Theorem C10_consistent_generate :
+  forall (mk_child : N -> cnode * N) (D : Type) (build : D -> N -> cnode * N)
+           (copy_procs : cnode -> N -> cnode * N),
+         (forall u : N, proc_nodes (fst (mk_child u)) [] = []) ->
+         forall (vr : variant) (t : cnode) (here : list key) (k : key) (d : D) 
+           (init : tree Z) (uid : N) (t' : cnode) (rp : reports) (uid' : N) 
+           (b b' : book) (u : N) (g : bool) (c : list (key * cnode)),
+         cwf t ->
+         consistent_procs t b ->
+         cget t here = Some (CDir u g c) ->
+         alookup k c = None ->
+         (forall (x : D) (n : N), cwf (fst (build x n))) ->
+         (forall (x : D) (n : N) (p : list key) (pi : pinfo),
+          In (p, pi) (proc_nodes (fst (build x n)) []) -> pi_in_steps pi = true -> pi_step pi = true) ->
+         apply_op mk_child D build copy_procs vr t here (OpGenerate D k d init) uid =
+         Ok (t', rp, uid') -> book_apply b rp = Ok b' -> consistent_procs t' b'.
+Proof. exact @consistent_generate. Qed.
+Print Assumptions C10_consistent_generate.
+
+(* ... move step (repaired Store.move) *)
+Theorem C10_consistent_move :
+  forall (mk_child : N -> cnode * N) (D : Type) (build : D -> N -> cnode * N)
+           (copy_procs : cnode -> N -> cnode * N) (t : cnode) (here : list key) 
+           (src : key) (tgt : list key) (uid : N) (t' : cnode) (rp : reports) 
+           (uid' : N) (b b' : book),
+         cwf t ->
+         consistent_procs t b ->
+         starts_with (tgt ++ [src]) (here ++ [src]) = false ->
+         starts_with (here ++ [src]) (tgt ++ [src]) = false ->
+         apply_op mk_child D build copy_procs vfixed t here (OpMove D src tgt) uid =
+         Ok (t', rp, uid') -> book_apply b rp = Ok b' -> consistent_procs t' b'.
+Proof. exact @consistent_move. Qed.
+Print Assumptions C10_consistent_move.
+
+(* the table keeps one entry per path *)
+Theorem C10_book_apply_nodup :
+  forall (b : book) (rp : reports) (b' : book),
+         NoDup (map fst (b_procs b)) ->
+         NoDup
+           (map fst (filter (fun pp : list key * pinfo => negb (pi_step (snd pp))) (r_process rp))) ->
+         (forall (p : list key) (pi : pinfo),
+          In (p, pi) (r_process rp) -> pi_step pi = false -> ~ In p (map fst (b_procs b))) ->
+         book_apply b rp = Ok b' -> NoDup (map fst (b_procs b')).
+Proof. exact @book_apply_nodup. Qed.
+Print Assumptions C10_book_apply_nodup.
+
+(* in a well-formed hierarchy process paths are pairwise distinct *)
+Theorem C10_proc_nodes_nodup :
+  forall t : cnode, cwf t -> forall pre : list key, NoDup (map fst (proc_nodes t pre)).
+Proof. exact @proc_nodes_nodup. Qed.
+Print Assumptions C10_proc_nodes_nodup.
+
+(* the processes of the hierarchy after a delete are exactly those not under the deleted path *)
+Theorem C10_delete_reports :
+  forall (mk_child : N -> cnode * N) (D : Type) (build : D -> N -> cnode * N)
+           (copy_procs : cnode -> N -> cnode * N) (vr : variant) (t : cnode) 
+           (here : list key) (k : key) (uid : N) (t' : cnode) (rp : reports) 
+           (uid' : N) (q : list key) (o : N),
+         cwf t ->
+         apply_op mk_child D build copy_procs vr t here (OpDelete D k) uid = Ok (t', rp, uid') ->
+         In (q, o) (proc_paths t') <->
+         In (q, o) (proc_paths t) /\ starts_with q (here ++ [k]) = false.
+Proof. exact @delete_reports. Qed.
+Print Assumptions C10_delete_reports.
+
+(* the processes after a generate are exactly the old ones plus the reported ones *)
+Theorem C10_generate_reports_partial :
+  forall (mk_child : N -> cnode * N) (D : Type) (build : D -> N -> cnode * N)
+           (copy_procs : cnode -> N -> cnode * N),
+         (forall u : N, proc_nodes (fst (mk_child u)) [] = []) ->
+         forall (vr : variant) (t : cnode) (here : list key) (k : key) (d : D) 
+           (init : tree Z) (uid : N) (t' : cnode) (rp : reports) (uid' : N) 
+           (q : list key) (o u : N) (g : bool) (c : list (key * cnode)),
+         cwf t ->
+         cget t here = Some (CDir u g c) ->
+         alookup k c = None ->
+         (forall (x : D) (n : N), cwf (fst (build x n))) ->
+         (forall (x : D) (n : N) (p : list key) (pi : pinfo),
+          In (p, pi) (proc_nodes (fst (build x n)) []) -> pi_in_steps pi = true -> pi_step pi = true) ->
+         apply_op mk_child D build copy_procs vr t here (OpGenerate D k d init) uid =
+         Ok (t', rp, uid') ->
+         In (q, o) (proc_paths t') <->
+         In (q, o) (proc_paths t) \/
+         (exists pi : pinfo, In (q, pi) (r_process rp) /\ pi_step pi = false /\ o = pi_obj pi).
+Proof. exact @generate_reports_partial. Qed.
+Print Assumptions C10_generate_reports_partial.
+
+(* ... the table never gets a process the hierarchy lacks (no premise on the composite) *)
+Theorem C10_generate_reports_sound :
+  forall (mk_child : N -> cnode * N) (D : Type) (build : D -> N -> cnode * N)
+           (copy_procs : cnode -> N -> cnode * N) (vr : variant) (t : cnode) 
+           (here : list key) (k : key) (d : D) (init : tree Z) (uid : N) 
+           (t' : cnode) (rp : reports) (uid' : N) (q : list key) (o u : N) 
+           (g : bool) (c : list (key * cnode)),
+         cwf t ->
+         cget t here = Some (CDir u g c) ->
+         alookup k c = None ->
+         apply_op mk_child D build copy_procs vr t here (OpGenerate D k d init) uid =
+         Ok (t', rp, uid') ->
+         In (q, o) (proc_paths t) \/
+         (exists pi : pinfo, In (q, pi) (r_process rp) /\ pi_step pi = false /\ o = pi_obj pi) ->
+         In (q, o) (proc_paths t').
+Proof. exact @generate_reports_sound. Qed.
+Print Assumptions C10_generate_reports_sound.
+
+(* the processes after a move are exactly the old ones outside the source plus the reported ones *)
+Theorem C10_move_reports :
+  forall (mk_child : N -> cnode * N) (D : Type) (build : D -> N -> cnode * N)
+           (copy_procs : cnode -> N -> cnode * N) (t : cnode) (here : list key) 
+           (src : key) (tgt : list key) (uid : N) (t' : cnode) (rp : reports) 
+           (uid' : N) (q : list key) (o : N),
+         cwf t ->
+         starts_with (tgt ++ [src]) (here ++ [src]) = false ->
+         starts_with (here ++ [src]) (tgt ++ [src]) = false ->
+         apply_op mk_child D build copy_procs vfixed t here (OpMove D src tgt) uid =
+         Ok (t', rp, uid') ->
+         In (q, o) (proc_paths t') <->
+         In (q, o) (proc_paths t) /\ starts_with q (here ++ [src]) = false \/
+         (exists pi : pinfo, In (q, pi) (r_process rp) /\ o = pi_obj pi).
+Proof. exact @move_reports. Qed.
+Print Assumptions C10_move_reports.
+
+(* Engine.apply_update registers exactly the reported non-step processes and drops exactly those under reported deletions *)
+Theorem C10_book_apply_procs :
+  forall (b : book) (rp : reports) (b' : book) (q : list key) (o : N),
+         NoDup (map fst (b_procs b)) ->
+         (forall (p : list key) (pi : pinfo),
+          In (p, pi) (r_process rp) ->
+          pi_step pi = false -> forall d : list key, In d (r_deletions rp) -> starts_with p d = false) ->
+         NoDup
+           (map fst (filter (fun pp : list key * pinfo => negb (pi_step (snd pp))) (r_process rp))) ->
+         (forall (p : list key) (pi : pinfo),
+          In (p, pi) (r_process rp) -> pi_step pi = false -> ~ In p (map fst (b_procs b))) ->
+         book_apply b rp = Ok b' ->
+         In (q, o) (b_procs b') <->
+         In (q, o) (b_procs b) /\
+         (forall d : list key, In d (r_deletions rp) -> starts_with q d = false) \/
+         (exists pi : pinfo, In (q, pi) (r_process rp) /\ pi_step pi = false /\ o = pi_obj pi).
+Proof. exact @book_apply_procs. Qed.
+Print Assumptions C10_book_apply_procs.
+
 
 (* ---- non-vacuity on the concrete kit (Model/StructC.v) ---- *)
 Definition ex_root : cnode :=
@@ -103,4 +259,19 @@ Example ex_move : exists t' rp, kapply_ops vfixed ex_root [10%N] [OpMove N 20%N 
 Proof. eexists. eexists. split; [vm_compute; reflexivity|]. split; vm_compute; reflexivity. Qed.
 Example ex_outside : outside [10%N; 20%N; 0%N; 1%N] (named N [11%N] (OpAdd N 21%N (Nd []))).
 Proof. intros nm [<-|[]]. reflexivity. Qed.
+
+(* the concrete kit meets the premises of the consistency theorems *)
+Example kit_child_no_procs : forall u, proc_nodes (fst (mk_child u)) [] = [].
+Proof. intros u. reflexivity. Qed.
+Example kit_steps_are_steps : forall x n p pi,
+  In (p, pi) (proc_nodes (fst (build x n)) []) -> pi_in_steps pi = true -> pi_step pi = true.
+Proof.
+  intros x n p pi. unfold build. destruct (has_drv x), (has_flow x); cbn;
+  intros H; repeat (destruct H as [H|H]; [inversion H; subst; cbn; auto|]); contradiction.
+Qed.
+Example kit_build_cwf : forall x n, cwf (fst (build x n)).
+Proof.
+  intros x n. unfold build. destruct (has_drv x), (has_flow x); cbn;
+  repeat (constructor; cbn; try (intros H; repeat destruct H as [H|H]; try discriminate; try contradiction)).
+Qed.
 
